@@ -129,6 +129,29 @@ Proof. induction l as [|[x|] l IH]; intros acc; cbn [fold_left filter_map map ad
 Lemma filter_map_map {A B C} (f : B -> option C) (g : A -> B) l : filter_map f (map g l) = filter_map (fun x => f (g x)) l.
 Proof. induction l as [|x l IH]; [reflexivity|]. cbn [map filter_map]. rewrite IH. reflexivity. Qed.
 
+(* the table of the sources names the same ids as the Spec's (order and repetitions aside) *)
+Lemma ids_same_members : forallb (fun x => existsb (String.eqb x) separate_swing_ids) special_swing_ids = true /\
+                         forallb (fun x => existsb (String.eqb x) special_swing_ids) separate_swing_ids = true.
+Proof. vm_compute. split; reflexivity. Qed.
+Lemma member_as_existsb (l : list string) (k : bytes) :
+  existsb (fun x => if bytes_eq_dec k (s2l x) then true else false) l = true <-> exists x, In x l /\ k = s2l x.
+Proof.
+  rewrite existsb_exists. split; intros [x [Hin H]]; exists x; (split; [exact Hin|]).
+  - destruct (bytes_eq_dec k (s2l x)); [assumption|discriminate].
+  - destruct (bytes_eq_dec k (s2l x)); [reflexivity|contradiction].
+Qed.
+Lemma sep_ids_agree (k : bytes) :
+  existsb (fun x => if bytes_eq_dec k (s2l x) then true else false) special_swing_ids =
+  existsb (fun x => beq k (s2l x)) separate_swing_ids.
+Proof.
+  destruct ids_same_members as [H1 H2]. rewrite forallb_forall in H1, H2.
+  change (fun x => beq k (s2l x)) with (fun x => if bytes_eq_dec k (s2l x) then true else false).
+  apply Bool.eq_true_iff_eq. rewrite !member_as_existsb.
+  split; intros [x [Hin ->]].
+  - specialize (H1 x Hin). apply existsb_exists in H1. destruct H1 as [y [Hy E]]. apply String.eqb_eq in E. subst y. exists x. auto.
+  - specialize (H2 x Hin). apply existsb_exists in H2. destruct H2 as [y [Hy E]]. apply String.eqb_eq in E. subst y. exists x. auto.
+Qed.
+
 Theorem capabilities_are_those_of_the_set s :
   let r := make_remote s in
   (r_supported r, r_min r, r_max r, r_toggle r, r_sep r) = spec_capabilities s.
@@ -141,7 +164,7 @@ Proof.
   rewrite A, B, C, D, E. cbn [init r_supported r_min r_max r_toggle r_sep].
   rewrite add_mode_none, add_modes_nodup. cbn [app mem_s existsb negb].
   assert (Hf : forall l : list string, filter (fun _ => true) l = l) by (induction l as [|x l IH]; cbn; [|rewrite IH]; reflexivity).
-  rewrite Hf, !filter_map_map. reflexivity.
+  rewrite Hf, !filter_map_map. rewrite (sep_ids_agree (ir_id s)). reflexivity.
 Qed.
 Print Assumptions capabilities_are_those_of_the_set.
 
